@@ -59,6 +59,11 @@ class LibMixin:
             return self.cont_call(ct, 'reverse', cont)
         if name == 'abs' and len(args) == 1:
             a = self.expr(args[0]); return '((%s) < 0 ? -(%s) : (%s))' % (a, a, a)
+        if name == 'make_pair' and len(args) == 2:
+            rt = self.tyq(n['type'])
+            if rt.kind == 'pair':
+                self.rules['std::make_pair'] += 1
+                return '%s_make(%s, %s)' % (rt.c, self.expr(args[0], rvalue=True), self.expr(args[1], rvalue=True))
         if name in ('make_shared', 'make_unique'):
             rt = self.tyq(n['type'])
             if rt.kind == 'ptr' and rt.elem is not None and rt.elem.kind == 'rec' and self.inline_checks == 0:
@@ -89,6 +94,13 @@ class LibMixin:
                 self.autostubs.setdefault(an, '%s* %s(void);' % (rt.elem.c, an)); self.fninfo.setdefault(an, {'qname': an, 'stub': True})
                 self.rules['make_unique-of-opaque-as-pool-allocation'] += 1
                 return '%s()' % an
+            if rt.kind == 'ptr' and rt.elem is not None and rt.elem.kind == 'opaque' and len(args) == 1 and self.same_c(args[0], rt.elem):
+                # copy of an opaque object behind a smart pointer mapped to a plain pointer: a pool object initialised by the
+                # (stubbed) copy: <T>* cc_copy_<T>(const <T>* src)
+                an = 'cc_copy_' + cident(rt.elem.c)
+                self.autostubs.setdefault(an, '%s* %s(const %s* src);' % (rt.elem.c, an, rt.elem.c)); self.fninfo.setdefault(an, {'qname': an, 'stub': True})
+                self.rules['make_unique-copy-of-opaque-as-pool-allocation'] += 1
+                return '%s(%s)' % (an, self.addr(self.expr(args[0])))
         if name in self.u.get('lib_stubs', ['stoi', 'stol', 'to_string', 'get', 'invoke', 'swap', 'holds_alternative']):
             # library function kept as an assumed-contract stub (declared in the unit description)
             atxt = []; ptxt = []; suffix = []
@@ -135,6 +147,12 @@ class LibMixin:
             if m == 'substr':
                 if len(a) == 2: return 'sv_substr(%s, %s, %s)' % (o, a[0], a[1])
                 if len(a) == 1: return 'sv_substr(%s, %s, SV_NPOS)' % (o, a[0])
+            if m in ('find_first_not_of', 'find_last_not_of') and len(a) == 1:
+                try: at = self.etype(args[0])
+                except Unsupported: at = None
+                if at is not None and at.kind == 'sv':
+                    self.rules['string_view::%s' % m] += 1
+                    return 'sv_%s(%s, %s)' % (m, o, a[0])
             if m in ('begin', 'end', 'cbegin', 'cend'):
                 raise Unsupported('string_view iterator outside range-for at ' + self.where(n))
             return None
